@@ -87,6 +87,14 @@ CORPUS = [
                  'c': {'check_with': [F.k_fail], 'minlength': 1, 'empty': False}, 'd': {'check_with': F.k_fail, 'regex': 'x+', 'empty': True},
                  'e': {'type': 'dict', 'schema': {'f': {'check_with': F.k_fail, 'empty': False}}}},
          doc={'a': '', 'b': [], 'c': '', 'd': '', 'e': {'f': []}}, norm=False),
+    # `^^name`: a dependency on a field whose name starts with a caret, looked up in the *current* document
+    dict(schema={'^a': {}, 'sub': {'type': 'dict', 'schema': {'^a': {'type': 'integer'}, 'x': {'dependencies': '^^a'},
+                                                            'y': {'dependencies': {'^^a': [2, 3]}}}}},
+         doc={'sub': {'x': 1, 'y': 1, '^a': 2}}, norm=False),
+    dict(schema={'^a': {}, 'sub': {'type': 'dict', 'schema': {'^a': {'type': 'integer'}, 'x': {'dependencies': ['^^a']},
+                                                            'y': {'dependencies': '^^a'}}},
+                 'l': {'type': 'list', 'schema': {'type': 'dict', 'schema': {'^a': {}, 'z': {'dependencies': '^^a'}}}}},
+         doc={'^a': 1, 'sub': {'x': 1, 'y': 2}, 'l': [{'z': 1}, {'z': 1, '^a': 0}]}, norm=False),
     # keysrules (validating only) beside normalizing valuesrules
     dict(schema={'m': {'type': 'dict', 'keysrules': {'type': 'string', 'regex': '[a-z]+'},
                        'valuesrules': {'type': 'integer', 'coerce': F.c_int, 'nullable': False, 'default': 0}}},
